@@ -93,7 +93,7 @@ func buildOptions(c *vf.Ctx, part, i int) (opt *query.ProcessorOptions, text str
 		return nil, text, g.feat, "rejected-by-yacc"
 	}
 	var o query.ProcessorOptions
-	if p := vf.Catch(func() {
+	if p := catchW(func() {
 		o, err = query.NewProcessorOptionsStmt(st, query.SelectOptions{
 			MaxSeriesN: r.IntN(1000), ChunkSize: r.IntN(10000), MaxQueryParallel: r.IntN(64),
 		})
@@ -107,7 +107,7 @@ func buildOptions(c *vf.Ctx, part, i int) (opt *query.ProcessorOptions, text str
 	if st.Condition != nil {
 		var cond influxql.Expr
 		var tr influxql.TimeRange
-		if p := vf.Catch(func() {
+		if p := catchW(func() {
 			valuer := influxql.NowValuer{Now: fixedNow, Location: st.Location}
 			cond, tr, err = influxql.ConditionExpr(st.Condition, &valuer)
 		}); p != nil {
@@ -126,7 +126,7 @@ func buildOptions(c *vf.Ctx, part, i int) (opt *query.ProcessorOptions, text str
 	}
 	// the statement's fields, reduced, as opt.Expr (any expression may sit there)
 	if len(st.Fields) > 0 && r.IntN(2) == 0 {
-		vf.Catch(func() {
+		catchW(func() {
 			valuer := influxql.NowValuer{Now: fixedNow}
 			o.Expr = influxql.Reduce(st.Fields[0].Expr, &valuer)
 		})
@@ -370,7 +370,7 @@ func (r *reporter) checkOpts(i int) {
 	rb := &recvBuf{}
 	var got query.ProcessorOptions
 	var err error
-	if p := vf.Catch(func() {
+	if p := catchW(func() {
 		var buf []byte
 		if buf, err = opt.MarshalBinary(); err == nil {
 			err = rb.deliver(buf, func(payload []byte) error { return got.UnmarshalBinary(payload) })
@@ -417,7 +417,7 @@ func (r *reporter) checkOpts(i int) {
 		rq.MstInfos = append(rq.MstInfos, &executor.MultiMstInfo{ShardIds: []uint64{rr.Uint64(), rr.Uint64()}[:1+rr.IntN(2)], Opt: *opt})
 	}
 	var back *executor.RemoteQuery
-	if p := vf.Catch(func() {
+	if p := catchW(func() {
 		var buf []byte
 		msg := rpc.NewMessage(executor.QueryMessage, rq)
 		if buf, err = msg.Marshal(nil); err != nil {
@@ -618,7 +618,7 @@ func (r *reporter) checkPlan(i int) {
 			continue
 		}
 		var e influxql.Expr
-		if p := vf.Catch(func() { valuer := influxql.NowValuer{Now: fixedNow}; e = influxql.Reduce(st.Fields[0].Expr, &valuer) }); p != nil || e == nil {
+		if p := catchW(func() { valuer := influxql.NowValuer{Now: fixedNow}; e = influxql.Reduce(st.Fields[0].Expr, &valuer) }); p != nil || e == nil {
 			continue
 		}
 		influxql.WalkFunc(e, func(n influxql.Node) {
@@ -645,7 +645,7 @@ func (r *reporter) checkPlan(i int) {
 	var gotFields influxql.Fields
 	var gotNames []string
 	var err error
-	if p := vf.Catch(func() {
+	if p := catchW(func() {
 		pb := query.EncodeQuerySchema(&stubCatalog{fields: fields, names: names})
 		var buf []byte
 		if buf, err = proto.Marshal(pb); err != nil {
@@ -661,7 +661,7 @@ func (r *reporter) checkPlan(i int) {
 	if err == nil && r.aliases("schema-codec", rb, func() any { return []any{backSchema.ColumnNames, backSchema.QueryFields} }, nil, oc) {
 		return
 	}
-	if p := vf.Catch(func() {
+	if p := catchW(func() {
 		if err != nil {
 			return
 		}
@@ -727,7 +727,7 @@ func (r *reporter) checkPlan(i int) {
 		eo := hybridqp.ExprOptions{Expr: f.Expr, Ref: ref}
 		var back hybridqp.ExprOptions
 		var eerr error
-		if p := vf.Catch(func() {
+		if p := catchW(func() {
 			var wire []byte
 			if wire, eerr = proto.Marshal(eo.Marshal()); eerr != nil {
 				return
@@ -774,7 +774,7 @@ func (r *reporter) checkPlan(i int) {
 	opt := query.ProcessorOptions{Ascending: rr.IntN(2) == 0, ChunkSize: 1 + rr.IntN(1000)}
 	var schema *executor.QuerySchema
 	simple := influxql.Fields{&influxql.Field{Expr: &influxql.VarRef{Val: "f1", Type: influxql.Float}}, &influxql.Field{Expr: &influxql.Call{Name: "count", Args: []influxql.Expr{&influxql.VarRef{Val: "f2", Type: influxql.Integer}}}}}
-	if p := vf.Catch(func() { schema = executor.NewQuerySchema(simple, []string{"f1", "count"}, &opt, nil) }); p != nil || schema == nil {
+	if p := catchW(func() { schema = executor.NewQuerySchema(simple, []string{"f1", "count"}, &opt, nil) }); p != nil || schema == nil {
 		c.Count("plan:schema-construction-panic", 1)
 		return
 	}
@@ -786,7 +786,7 @@ func (r *reporter) checkPlan(i int) {
 		c.Distinct("plan-node-kinds", steps[k].Kind)
 	}
 	var planA, planB string
-	if p := vf.Catch(func() {
+	if p := catchW(func() {
 		plan := buildPlan(schema, steps)
 		planA = planShape(plan)
 		var buf []byte
@@ -970,7 +970,7 @@ func (r *reporter) checkChunk(i int) {
 	var ck executor.Chunk
 	var rt hybridqp.RowDataType
 	var shape string
-	if p := vf.Catch(func() { ck, rt, shape = buildChunk(rr) }); p != nil {
+	if p := catchW(func() { ck, rt, shape = buildChunk(rr) }); p != nil {
 		c.Count("chunk:construction-panic", 1)
 		return
 	}
@@ -986,7 +986,7 @@ func (r *reporter) checkChunk(i int) {
 	var back, back2, ck2 executor.Chunk
 	var rt2 hybridqp.RowDataType
 	var err error
-	if p := vf.Catch(func() {
+	if p := catchW(func() {
 		var buf []byte
 		msg := executor.NewChunkResponse(ck)
 		buf = make([]byte, 0, msg.Size())
@@ -1077,7 +1077,7 @@ func (r *reporter) checkJoinCase(rr *rand.Rand, oc objCase) {
 	var back []*influxql.Join
 	var derr error
 	rb := &recvBuf{}
-	if p := vf.Catch(func() {
+	if p := catchW(func() {
 		var wire []byte
 		if wire, derr = proto.Marshal(&internal.QueryNode{JoinCase: query.EncodeJoinCases([]*influxql.Join{join})}); derr != nil {
 			return
@@ -1124,7 +1124,7 @@ func (r *reporter) checkJoinCase(rr *rand.Rand, oc objCase) {
 		}
 		var got []*influxql.Join
 		var e2 error
-		vf.Catch(func() { got, e2 = query.DecodeJoinCases(query.EncodeJoinCases([]*influxql.Join{j})) })
+		catchW(func() { got, e2 = query.DecodeJoinCases(query.EncodeJoinCases([]*influxql.Join{j})) })
 		if e2 == nil && same(j, got) {
 			for _, w := range strings.Split(v.name, "+") {
 				r.violation("subquery-text:not-read-back:"+w, fmt.Sprintf("join case (%s) is not read back by DecodeJoinCases (err=%v); it is once the %s is removed", oc.Note, derr, w), oc)
@@ -1145,7 +1145,7 @@ func (r *reporter) checkJoinCase(rr *rand.Rand, oc objCase) {
 // back to the connection pool. Returns true (and reports) in that case.
 func (r *reporter) aliases(codec string, rb *recvBuf, view func() any, what func(before, after string) string, oc any) bool {
 	var before, after string
-	if p := vf.Catch(func() {
+	if p := catchW(func() {
 		before = canon(view(), canonOpts{})
 		rb.overwrite()
 		after = canon(view(), canonOpts{})
